@@ -197,7 +197,9 @@ class Sched:
         self.dead = False
         self.lines = lines
         self.hooks = {}              # (thread name, k) -> callable
-        self.loops = []              # every SimLoop created during the execution
+        self.loops = []              # every SimLoop created during the execution and not yet closed
+        self.nloops = 0
+        self.max_runners_seen = 0    # most threads ever inside run_forever of one loop at once
         self.line_cov = {}           # (qualname, line) -> count
         self.switch_lines = set()    # (qualname, line) at which the baton moved
         self.time_advances = 0
@@ -1163,7 +1165,8 @@ class SimLoop(asyncio.SelectorEventLoop):
         s = CUR[0]
         if s is not None:
             s.loops.append(self)
-            self.sim_name = f'L{len(s.loops)}'
+            s.nloops += 1
+            self.sim_name = f'L{s.nloops}'
         self.on_stop = None           # callable(loop) run with no yield point in between
 
     def time(self):
@@ -1178,6 +1181,9 @@ class SimLoop(asyncio.SelectorEventLoop):
         self._sim_runners += 1
         if self._sim_runners > self._sim_max_runners:
             self._sim_max_runners = self._sim_runners
+            sc = CUR[0]
+            if sc is not None and self._sim_runners > sc.max_runners_seen:
+                sc.max_runners_seen = self._sim_runners
         try:
             return super().run_forever()
         finally:
@@ -1187,6 +1193,17 @@ class SimLoop(asyncio.SelectorEventLoop):
                 s = CUR[0]
                 if s is None or not s.dead:
                     cb(self)
+
+    def close(self):
+        super().close()
+        # a closed loop is the harness's no longer: without this reference an abandoned loop (and the
+        # pending coroutines that only it keeps alive) can become garbage *during* the execution
+        s = CUR[0]
+        if s is not None and self.is_closed():
+            try:
+                s.loops.remove(self)
+            except ValueError:
+                pass
 
     def _sim_force_close(self):
         try:
